@@ -39,6 +39,13 @@ func c24Norm(p string) string {
 			return c24Prefix + n
 		}
 	}
+	// the two documented short names whose URI fragment is spelled with underscores
+	switch p {
+	case "Aes128Sha256RsaOaep":
+		return c24Prefix + "Aes128_Sha256_RsaOaep"
+	case "Aes256Sha256RsaPss":
+		return c24Prefix + "Aes256_Sha256_RsaPss"
+	}
 	if len(p) >= len(c24Prefix) && p[:len(c24Prefix)] == c24Prefix {
 		return p
 	}
@@ -109,7 +116,7 @@ func c24Run(c *fw.Ctx) error {
 			}
 		}
 	}
-	queries := []string{"", "None", c24Prefix + "None", "Basic256Sha256", c24Prefix + "Aes256_Sha256_RsaPss", "Foo", "Basic256"}
+	queries := []string{"", "None", c24Prefix + "None", "Basic256Sha256", c24Prefix + "Aes256_Sha256_RsaPss", "Foo", "Basic256", "Aes256Sha256RsaPss", "Aes256_Sha256_RsaPss"}
 	maxLen := c.Pick(2, 3)
 	var idx int64
 	var rec func(cur []c24EP)
@@ -177,7 +184,7 @@ func c24Rand(r *rand.Rand) c24Case {
 	q := ""
 	switch r.Intn(4) {
 	case 0:
-		q = c24Names[r.Intn(len(c24Names))]
+		q = append(append([]string{}, c24Names...), "Aes128Sha256RsaOaep", "Aes256Sha256RsaPss")[r.Intn(len(c24Names)+2)]
 	case 1:
 		q = c24Prefix + c24Names[r.Intn(len(c24Names))]
 	case 2:
@@ -192,7 +199,7 @@ func init() {
 	fw.Register("C24", fw.Spec{
 		Plan: func(tier string) fw.Plan {
 			p := fw.Plan{Batches: 4, TimeoutS: 300, MinNontrivial: 5000, Level: "exploration",
-				Rule:        "exhaustive over endpoint lists of length <= 2 (quick) / <= 3 (thorough) from an alphabet of 4 policies x 3 modes x 3 levels, each x 7 policy queries (\"\", short names, URIs, unknown) x 4 modes; plus seed-determined random lists of length 0..12 with duplicates, equal levels and unknown policies; oracle = independent model (match set, maximal level, error iff empty); distinct = distinct lists / cases",
+				Rule:        "exhaustive over endpoint lists of length <= 2 (quick) / <= 3 (thorough) from an alphabet of 4 policies x 3 modes x 3 levels, each x 9 policy queries (\"\", short names incl. the underscore-less documented ones, URIs, unknown) x 4 modes; plus seed-determined random lists of length 0..12 with duplicates, equal levels and unknown policies; oracle = independent model (match set, maximal level, error iff empty); distinct = distinct lists / cases",
 				Assumptions: []string{"endpoint lists contain no nil entries"}}
 			if tier == "thorough" {
 				p.Batches, p.TimeoutS, p.MinNontrivial = 16, 1200, 500000
